@@ -170,7 +170,20 @@ func c19CURun(x *h.Ctx, c c19CUCase) {
 		answer := &c19CUAnswer{}
 		oversize := false
 		c19x.Setup(x, "answer", func() {
-			entries := map[string]any{}
+			var entryKeys []string
+			entries := map[string][]byte{} // key -> raw bytes of the value, verbatim (possibly not JSON after a raw mutation)
+			put := func(k string, v any) {
+				if _, dup := entries[k]; !dup {
+					entryKeys = append(entryKeys, k)
+				}
+				if raw, isRaw := v.([]byte); isRaw {
+					entries[k] = raw
+					return
+				}
+				b, err := json.Marshal(v)
+				x.NoErr(err, "marshal entry")
+				entries[k] = b
+			}
 			for j, en := range s.Entries {
 				if len(s.Entries) > 4 {
 					break
@@ -206,7 +219,7 @@ func c19CURun(x *h.Ctx, c c19CUCase) {
 					if en.Kind == "ld-noid" {
 						id = ""
 					}
-					v = json.RawMessage(mut(c19CULDPresentation(now, id, []any{vcTok}, en.Kind != "ld-noproof")))
+					v = mut(c19CULDPresentation(now, id, []any{vcTok}, en.Kind != "ld-noproof"))
 				case "garbage-string":
 					v = "not.a.jwt"
 				case "number":
@@ -216,10 +229,9 @@ func c19CURun(x *h.Ctx, c c19CUCase) {
 				default:
 					v = map[string]any{"foo": "bar"}
 				}
-				entries[en.Key] = v
+				put(en.Key, v)
 			}
 			var body []byte
-			var err error
 			switch s.Answer {
 			case "404", "500":
 				fmt.Sscan(s.Answer, &answer.status)
@@ -230,10 +242,23 @@ func c19CURun(x *h.Ctx, c c19CUCase) {
 				answer.status = 0
 			default:
 				answer.status = 200
-				body, err = json.Marshal(map[string]any{"entries": entries, "seed": s.Seed, "timestamp": s.Timestamp})
-				x.NoErr(err, "marshal response")
+				var sb strings.Builder
+				sb.WriteString(`{"entries":{`)
+				for n, k := range entryKeys {
+					if n > 0 {
+						sb.WriteString(",")
+					}
+					kb, _ := json.Marshal(k)
+					sb.Write(kb)
+					sb.WriteString(":")
+					sb.Write(entries[k])
+				}
+				seedJSON, _ := json.Marshal(s.Seed)
+				fmt.Fprintf(&sb, `},"seed":%s,"timestamp":%d}`, seedJSON, s.Timestamp)
+				body = []byte(sb.String())
 			}
-			if s.Body != nil && len(body) > 0 {
+			// (a second plan on top of an already enlarged body would compose two enlargements: only bodies of ordinary size)
+			if s.Body != nil && len(body) > 0 && len(body) <= 16*1024 {
 				var ap c19x.Applied
 				body, ap = s.Body.Apply(body)
 				oversize = oversize || ap.Oversize
